@@ -221,7 +221,7 @@ func main() {
 	th := R.Thorough()
 
 	// (1) expand_message_xmd grid
-	dstLens := []int{1, 2, 16, 38, 254, 255, 256, 257, 1000}
+	dstLens := []int{1, 2, 16, 38, 254, 255, 256, 257, 1000, 65535, 65536, 70000} // no upper limit on a tag: beyond the 2-byte length fields used elsewhere
 	msgLens := []int{0, 1, 55, 56, 63, 64, 65, 119, 120, 1000}
 	outLens := []int{1, 31, 32, 33, 48, 64, 96, 255, 256, 8160}
 	if th {
@@ -345,8 +345,8 @@ func main() {
 	}
 
 	// (3) RO / NU end-to-end, with slice reuse (purity)
-	sd := []int{1, 2, 16, 49, 254, 255, 256, 257, 300, 1000}
-	sm := []int{0, 1, 55, 56, 64, 119, 120, 1000}
+	sd := []int{1, 2, 16, 49, 254, 255, 256, 257, 300, 1000, 65535, 65536, 65537, 100000}
+	sm := []int{0, 1, 55, 56, 64, 119, 120, 1000, 65536, 100000}
 	type sj struct {
 		ro   bool
 		d, m int
